@@ -723,26 +723,37 @@ pub fn plist_text(c: &Case) -> String {
 // ------------------------------------------------------------------ the three entry points
 pub struct Sandbox {
     load_dir: PathBuf,
+    load2_dir: PathBuf,
+    load1_dir: PathBuf,
     save_dir: PathBuf,
+}
+fn skeleton(dir: &Path, version: u32) {
+    std::fs::create_dir_all(dir.join("glyphs")).unwrap();
+    write_file(
+        &dir.join("metainfo.plist"),
+        &format!("<?xml version=\"1.0\" encoding=\"UTF-8\"?>\n<plist version=\"1.0\"><dict><key>creator</key><string>verif</string><key>formatVersion</key><integer>{}</integer></dict></plist>\n", version),
+    );
+    if version == 3 {
+        write_file(
+            &dir.join("layercontents.plist"),
+            "<?xml version=\"1.0\" encoding=\"UTF-8\"?>\n<plist version=\"1.0\"><array><array><string>public.default</string><string>glyphs</string></array></array></plist>\n",
+        );
+    }
+    write_file(
+        &dir.join("glyphs").join("contents.plist"),
+        "<?xml version=\"1.0\" encoding=\"UTF-8\"?>\n<plist version=\"1.0\"><dict/></plist>\n",
+    );
 }
 impl Sandbox {
     pub fn new(root: &Path, tag: &str) -> Sandbox {
         let load_dir = root.join(format!("load_{}.ufo", tag));
+        let load2_dir = root.join(format!("load2_{}.ufo", tag));
+        let load1_dir = root.join(format!("load1_{}.ufo", tag));
         let save_dir = root.join(format!("save_{}.ufo", tag));
-        std::fs::create_dir_all(load_dir.join("glyphs")).unwrap();
-        write_file(
-            &load_dir.join("metainfo.plist"),
-            "<?xml version=\"1.0\" encoding=\"UTF-8\"?>\n<plist version=\"1.0\"><dict><key>creator</key><string>verif</string><key>formatVersion</key><integer>3</integer></dict></plist>\n",
-        );
-        write_file(
-            &load_dir.join("layercontents.plist"),
-            "<?xml version=\"1.0\" encoding=\"UTF-8\"?>\n<plist version=\"1.0\"><array><array><string>public.default</string><string>glyphs</string></array></array></plist>\n",
-        );
-        write_file(
-            &load_dir.join("glyphs").join("contents.plist"),
-            "<?xml version=\"1.0\" encoding=\"UTF-8\"?>\n<plist version=\"1.0\"><dict/></plist>\n",
-        );
-        Sandbox { load_dir, save_dir }
+        skeleton(&load_dir, 3);
+        skeleton(&load2_dir, 2);
+        skeleton(&load1_dir, 1);
+        Sandbox { load_dir, load2_dir, load1_dir, save_dir }
     }
 }
 
@@ -773,26 +784,85 @@ fn obs_save(fi: &FontInfo, sb: &Sandbox) -> Obs {
         Ok(Err(e)) => Obs::Other(7, format!("{:?}", e)),
     }
 }
-fn obs_load(c: &Case, sb: &Sandbox) -> Obs {
-    write_file(&sb.load_dir.join("fontinfo.plist"), &plist_text(c));
-    match catch(|| Font::load(&sb.load_dir)) {
+fn classify_load(r: Result<Result<Font, FontLoadError>, String>) -> Obs {
+    match r {
         Err(m) => Obs::Other(9, format!("panic: {}", m)),
         Ok(Ok(font)) => Obs::Ok(info_of(&font.font_info)),
-        Ok(Err(FontLoadError::FontInfo(FontInfoLoadError::InvalidData(k)))) => match g_kind(&k) {
+        // validate() refused: InvalidData (format 3), FontInfoUpconversion (format 2, 1),
+        // FontInfoV1Upconversion (format 1 lib data)
+        Ok(Err(FontLoadError::FontInfo(FontInfoLoadError::InvalidData(k))))
+        | Ok(Err(FontLoadError::FontInfo(FontInfoLoadError::FontInfoUpconversion(k))))
+        | Ok(Err(FontLoadError::FontInfoV1Upconversion(k))) => match g_kind(&k) {
             Some(e) => Obs::Invalid(e),
             None => Obs::Other(5, format!("{:?}", k)),
         },
         Ok(Err(FontLoadError::FontInfo(FontInfoLoadError::ParsePlist(_)))) => Obs::Parse,
+        Ok(Err(FontLoadError::ParsePlist { name: "lib.plist", .. })) => Obs::Parse,
         Ok(Err(e)) => Obs::Other(7, format!("{:?}", e)),
     }
 }
+fn obs_load(c: &Case, sb: &Sandbox) -> Obs {
+    write_file(&sb.load_dir.join("fontinfo.plist"), &plist_text(c));
+    classify_load(catch(|| Font::load(&sb.load_dir)))
+}
+/// the case only uses fields a format-2 fontinfo.plist has, with the same types
+pub fn v2_applicable(c: &Case) -> bool {
+    c.gasp.is_none()
+        && c.guides.is_none()
+        && c.panose.is_none()
+        && c.width.is_none()
+        && c.charset.is_none()
+        && c.u32s.is_empty()
+        && c.upm.is_none()
+        && c.wext.is_none()
+        && c.wsimple.iter().all(|w| w.is_none())
+        && !c.unknown
+}
+/// the case only uses the PostScript lists (format 1: org.robofab.postScriptHintData in lib.plist)
+pub fn v1_applicable(c: &Case) -> bool {
+    v2_applicable(c) && c.date.is_none() && c.selection.is_none() && c.class.is_none() && c.lists.iter().any(|l| l.is_some())
+}
+fn obs_load2(c: &Case, sb: &Sandbox) -> Obs {
+    if !v2_applicable(c) {
+        return Obs::NA;
+    }
+    write_file(&sb.load2_dir.join("fontinfo.plist"), &plist_text(c));
+    classify_load(catch(|| Font::load(&sb.load2_dir)))
+}
+pub fn lib_text_v1(c: &Case) -> String {
+    let mut s = String::from(
+        "<?xml version=\"1.0\" encoding=\"UTF-8\"?>\n<plist version=\"1.0\">\n<dict>\n<key>org.robofab.postScriptHintData</key>\n<dict>\n",
+    );
+    const KEYS: [&str; 6] = ["blueValues", "otherBlues", "familyBlues", "familyOtherBlues", "hStems", "vStems"];
+    for k in 0..6 {
+        if let Some(v) = &c.lists[k] {
+            if k < 4 {
+                // pairs, a trailing single value as a one-element group
+                let groups: Vec<String> = v.chunks(2).map(x_ints).collect();
+                let _ = writeln!(s, "<key>{}</key><array>{}</array>", KEYS[k], groups.concat());
+            } else {
+                let _ = writeln!(s, "<key>{}</key>{}", KEYS[k], x_ints(v));
+            }
+        }
+    }
+    s.push_str("</dict>\n</dict>\n</plist>\n");
+    s
+}
+fn obs_load1(c: &Case, sb: &Sandbox) -> Obs {
+    if !v1_applicable(c) {
+        return Obs::NA;
+    }
+    write_file(&sb.load1_dir.join("lib.plist"), &lib_text_v1(c));
+    classify_load(catch(|| Font::load(&sb.load1_dir)))
+}
 
-pub fn observe(c: &Case, sb: &Sandbox) -> (Obs, Obs, Obs) {
+pub type Observed = (Obs, Obs, Obs, Obs, Obs);
+pub fn observe(c: &Case, sb: &Sandbox) -> Observed {
     let (v, s) = match build(c) {
         None => (Obs::NA, Obs::NA),
         Some(fi) => (obs_validate(&fi), obs_save(&fi, sb)),
     };
-    (v, s, obs_load(c, sb))
+    (v, s, obs_load(c, sb), obs_load2(c, sb), obs_load1(c, sb))
 }
 
 // ------------------------------------------------------------------ JSON (replay files, case list)
@@ -971,120 +1041,193 @@ fn rule_instances(ok: bool) -> Vec<Box<dyn Fn(&mut Case)>> {
 fn random_case(rng: &mut Rng) -> Case {
     let mut c = Case::default();
     let angles = angle_pool();
-    if rng.chance(1, 2) {
+    // profile: 0 any field; 1 only what a format-2 file has; 2 only the PostScript lists (format-1 lib data)
+    let profile = match rng.below(10) {
+        0..=5 => 0,
+        6..=8 => 1,
+        _ => 2,
+    };
+    // each present field is drawn from its satisfying values with probability 7/8
+    let mut good = |rng: &mut Rng| !rng.chance(1, 8);
+    if profile < 2 && rng.chance(1, 2) {
         let mut d: Vec<u8> = rng.pick(&VALID_DATES).as_bytes().to_vec();
-        match rng.below(6) {
-            0 => {}
-            1 => {
-                let p = rng.below(19) as usize;
-                d[p] = *rng.pick(&DATE_BYTES);
-            }
-            2 => {
-                // a field at a boundary
-                let (p, vals): (usize, &[&str]) = match rng.below(5) {
-                    0 => (5, &["00", "01", "12", "13"]),
-                    1 => (8, &["00", "01", "31", "32"]),
-                    2 => (11, &["00", "23", "24"]),
-                    3 => (14, &["00", "59", "60"]),
-                    _ => (17, &["00", "59", "60"]),
-                };
-                let v = rng.pick(vals).as_bytes();
-                d[p] = v[0];
-                d[p + 1] = v[1];
-            }
-            3 => {
-                d.pop();
-            }
-            4 => d.push(b'0'),
-            _ => {
-                for _ in 0..2 {
+        if good(rng) {
+            // a random in-range date
+            let s = format!(
+                "{:04}/{:02}/{:02} {:02}:{:02}:{:02}",
+                rng.below(10000),
+                *rng.pick(&[1u64, 2, 9, 10, 11, 12]),
+                *rng.pick(&[1u64, 9, 10, 28, 30, 31]),
+                *rng.pick(&[0u64, 1, 9, 12, 22, 23]),
+                *rng.pick(&[0u64, 30, 58, 59]),
+                *rng.pick(&[0u64, 30, 58, 59])
+            );
+            d = s.into_bytes();
+        } else {
+            match rng.below(5) {
+                0 => {
                     let p = rng.below(19) as usize;
                     d[p] = *rng.pick(&DATE_BYTES);
+                }
+                1 => {
+                    // a field at a boundary
+                    let (p, vals): (usize, &[&str]) = match rng.below(5) {
+                        0 => (5, &["00", "01", "12", "13"]),
+                        1 => (8, &["00", "01", "31", "32"]),
+                        2 => (11, &["00", "23", "24"]),
+                        3 => (14, &["00", "59", "60"]),
+                        _ => (17, &["00", "59", "60"]),
+                    };
+                    let v = rng.pick(vals).as_bytes();
+                    d[p] = v[0];
+                    d[p + 1] = v[1];
+                }
+                2 => {
+                    d.pop();
+                }
+                3 => d.push(b'0'),
+                _ => {
+                    for _ in 0..2 {
+                        let p = rng.below(19) as usize;
+                        d[p] = *rng.pick(&DATE_BYTES);
+                    }
                 }
             }
         }
         c.date = Some(String::from_utf8(d).unwrap());
     }
-    if rng.chance(1, 3) {
+    if profile == 0 && rng.chance(1, 3) {
         let n = rng.below(5);
-        c.gasp = Some(
-            (0..n)
-                .map(|_| (*rng.pick(&[0i64, 1, 2, 3, 65535, 4294967295]), (0..rng.below(3)).map(|_| rng.below(4) as i64).collect()))
-                .collect(),
-        );
-        if rng.chance(1, 2) {
-            if let Some(g) = &mut c.gasp {
-                g.sort();
-            }
+        let mut g: Vec<(i64, Vec<i64>)> = (0..n)
+            .map(|_| (*rng.pick(&[0i64, 1, 2, 3, 65535, 4294967295]), (0..rng.below(3)).map(|_| rng.below(4) as i64).collect()))
+            .collect();
+        if good(rng) {
+            g.sort();
         }
+        c.gasp = Some(g);
     }
-    if rng.chance(1, 2) {
-        let n = rng.below(5);
-        let ids = ["a", "b", "c", "A", "a "];
+    if profile == 0 && rng.chance(1, 2) {
+        let n = rng.below(5) as usize;
+        let ids = ["a", "b", "c", "A", "a ", "d", "e"];
+        let ok = good(rng);
+        let mut used: Vec<&str> = vec![];
         c.guides = Some(
             (0..n)
                 .map(|_| {
-                    let id = if rng.chance(1, 2) { Some(*rng.pick(&ids)) } else { None };
+                    let mut id = if rng.chance(1, 2) { Some(*rng.pick(&ids)) } else { None };
+                    if ok {
+                        if let Some(x) = id {
+                            if used.contains(&x) {
+                                id = None;
+                            } else {
+                                used.push(x);
+                            }
+                        }
+                    }
                     match rng.below(4) {
                         0 => gd_v(id),
                         1 => gd_h(id),
-                        _ => gd_a(if rng.chance(2, 3) { *rng.pick(&[0.0, 1.0, 180.0, 360.0, 359.5]) } else { *rng.pick(&angles) }, id),
+                        _ => gd_a(if ok || rng.chance(1, 2) { *rng.pick(&[0.0, -0.0, 1.0, 180.0, 360.0, 359.5]) } else { *rng.pick(&angles) }, id),
                     }
                 })
                 .collect(),
         );
     }
-    if rng.chance(1, 3) {
+    if profile < 2 && rng.chance(1, 3) {
         let n = rng.below(5);
-        c.selection = Some((0..n).map(|_| *rng.pick(&[0i64, 1, 2, 3, 4, 5, 6, 7, 8, 9, 15, 255])).collect());
+        c.selection = Some(if good(rng) {
+            (0..n).map(|_| *rng.pick(&[1i64, 2, 3, 4, 7, 8, 9, 15, 255])).collect()
+        } else {
+            (0..n + 1).map(|_| *rng.pick(&[0i64, 1, 2, 3, 4, 5, 6, 7, 8, 9, 15, 255])).collect()
+        });
     }
-    if rng.chance(1, 3) {
-        c.class = Some(vec![*rng.pick(&[0i64, 1, 13, 14, 15, 16, 255]), *rng.pick(&[0i64, 1, 14, 15, 16, 17, 255])]);
+    if profile < 2 && rng.chance(1, 3) {
+        c.class = Some(if good(rng) {
+            vec![*rng.pick(&[0i64, 1, 13, 14]), *rng.pick(&[0i64, 1, 14, 15])]
+        } else {
+            vec![*rng.pick(&[0i64, 1, 13, 14, 15, 16, 255]), *rng.pick(&[0i64, 1, 14, 15, 16, 17, 255])]
+        });
     }
     for k in 0..6 {
-        if rng.chance(1, 4) {
+        if rng.chance(if profile == 2 { 1 } else { 1 }, if profile == 2 { 2 } else { 4 }) {
             let max = [14u64, 10, 14, 10, 12, 12][k];
-            let n = match rng.below(4) {
-                0 => rng.below(18),
-                1 => max,
-                2 => max + 1,
-                _ => max - 1,
+            let n = if good(rng) {
+                let n = *rng.pick(&[0, 2, 4, max - 2, max]);
+                if k >= 4 && rng.chance(1, 2) { n.saturating_sub(1) } else { n }
+            } else {
+                match rng.below(4) {
+                    0 => rng.below(18),
+                    1 => max,
+                    2 => max + 1,
+                    _ => max - 1,
+                }
             };
             c.lists[k] = Some(ints(n as usize));
         }
     }
-    if rng.chance(1, 4) {
-        c.wext = Some(rng.pick(&wext_pool()).clone());
+    if profile == 2 && c.lists.iter().all(|l| l.is_none()) {
+        c.lists[rng.below(6) as usize] = Some(ints(2));
+    }
+    if profile == 0 && rng.chance(1, 4) {
+        c.wext = Some(if good(rng) {
+            rng.pick(&[vec![vec![(1usize, 1usize)]], vec![vec![(1, 1), (2, 3)]], vec![vec![(2, 3)], vec![(1, 1)]]]).clone()
+        } else {
+            rng.pick(&wext_pool()).clone()
+        });
     }
     for k in 0..4 {
-        if rng.chance(1, 4) {
-            c.wsimple[k] = Some(rng.below(3) as usize);
+        if profile == 0 && rng.chance(1, 4) {
+            c.wsimple[k] = Some(if good(rng) { 1 + rng.below(2) as usize } else { rng.below(3) as usize });
         }
     }
     // typed extras, mostly well-typed
-    if rng.chance(1, 8) {
-        c.panose = Some((0..*rng.pick(&[10usize, 10, 10, 9, 11])).map(|k| k as i64).collect());
-    }
-    if rng.chance(1, 8) {
-        c.width = Some(*rng.pick(&[1i64, 5, 9, 9, 0, 10]));
-    }
-    if rng.chance(1, 8) {
-        c.charset = Some(*rng.pick(&[1i64, 2, 20, 20, 0, 21]));
-    }
-    if rng.chance(1, 8) {
-        c.u32s = (0..rng.below(8)).map(|_| *rng.pick(&[0i64, 1, 400, 4294967295, 4294967295, -1, 4294967296])).collect();
-    }
-    if rng.chance(1, 8) {
-        c.upm = Some(*rng.pick(&[1000.0, 2048.0, 0.0, 16.5, -0.0, -1000.0]));
-    }
-    if rng.chance(1, 40) {
-        c.unknown = true;
+    if profile == 0 {
+        if rng.chance(1, 8) {
+            c.panose = Some((0..*rng.pick(&[10usize, 10, 10, 10, 10, 10, 9, 11])).map(|k| k as i64).collect());
+        }
+        if rng.chance(1, 8) {
+            c.width = Some(*rng.pick(&[1i64, 5, 9, 9, 1, 5, 0, 10]));
+        }
+        if rng.chance(1, 8) {
+            c.charset = Some(*rng.pick(&[1i64, 2, 20, 20, 1, 2, 0, 21]));
+        }
+        if rng.chance(1, 8) {
+            let ok = good(rng);
+            c.u32s = (0..rng.below(8))
+                .map(|_| if ok { *rng.pick(&[0i64, 1, 400, 4294967295]) } else { *rng.pick(&[0i64, 1, 4294967295, -1, 4294967296]) })
+                .collect();
+        }
+        if rng.chance(1, 8) {
+            c.upm = Some(*rng.pick(&[1000.0, 2048.0, 0.0, 16.5, 1000.0, 2048.0, -0.0, -1000.0]));
+        }
+        if rng.chance(1, 60) {
+            c.unknown = true;
+        }
     }
     c
 }
 
 pub fn generate(a: &Args) -> Vec<(String, Case)> {
     let mut out: Vec<(String, Case)> = vec![];
+    // the committed corpus (witnesses of repaired findings, earlier failures) runs first
+    for x in &a.extra {
+        if let Some(dir) = x.strip_prefix("corpus=") {
+            let mut files: Vec<PathBuf> = std::fs::read_dir(dir)
+                .map(|rd| rd.filter_map(|e| e.ok().map(|e| e.path())).collect())
+                .unwrap_or_default();
+            files.sort();
+            for f in files {
+                if f.extension().map(|e| e == "json").unwrap_or(false) {
+                    let j: serde_json::Value =
+                        serde_json::from_str(&std::fs::read_to_string(&f).expect("corpus file")).expect("corpus json");
+                    out.push((
+                        format!("corpus {}", f.file_name().unwrap().to_string_lossy()),
+                        case_of_json(&j["case"]),
+                    ));
+                }
+            }
+        }
+    }
     let mut push = |label: String, c: Case| out.push((label, c));
     push("empty".into(), Case::default());
     // --- the six lists, every length 0..16
@@ -1194,7 +1337,7 @@ pub fn generate(a: &Args) -> Vec<(String, Case)> {
             push(format!("class [{}, {}]", x, y), c);
         }
     }
-    for v in [vec![], vec![1], vec![1, 2, 3], vec![255, 255], vec![256, 0], vec![0, 256], vec![-1, 0], vec![0, -1], vec![14, 255]] {
+    for v in [vec![], vec![1], vec![14], vec![1, 2, 3], vec![14, 15, 0], vec![0, 0, 0, 0], vec![99, 0, 0], vec![255, 255], vec![256, 0], vec![0, 256], vec![-1, 0], vec![0, -1], vec![14, 255]] {
         let mut c = Case::default();
         c.class = Some(v.clone());
         push(format!("class {:?}", v), c);
@@ -1367,7 +1510,7 @@ pub fn generate(a: &Args) -> Vec<(String, Case)> {
         push("every rule violated".into(), c);
     }
     // --- random combinations of several rule-relevant fields at once
-    let nrand = if a.thorough() { 200_000 } else { 3_000 };
+    let nrand = if a.thorough() { 200_000 } else { 6_000 };
     let mut rng = Rng::new(a.seed);
     for k in 0..nrand {
         push(format!("random #{}", k), random_case(&mut rng));
@@ -1375,9 +1518,9 @@ pub fn generate(a: &Args) -> Vec<(String, Case)> {
     out
 }
 
-fn run_cases(cases: &[(String, Case)], root: &Path, nthreads: usize) -> Vec<(Obs, Obs, Obs)> {
+fn run_cases(cases: &[(String, Case)], root: &Path, nthreads: usize) -> Vec<Observed> {
     let chunk = (cases.len() + nthreads - 1) / nthreads.max(1);
-    let mut results: Vec<Vec<(Obs, Obs, Obs)>> = vec![];
+    let mut results: Vec<Vec<Observed>> = vec![];
     std::thread::scope(|s| {
         let hs: Vec<_> = cases
             .chunks(chunk.max(1))
@@ -1406,13 +1549,21 @@ pub fn main(a: &Args) {
         let j: serde_json::Value = serde_json::from_str(&std::fs::read_to_string(p).expect("replay file")).expect("json");
         let c = case_of_json(&j["case"]);
         let sb = Sandbox::new(&sandbox_root, "replay");
-        let (v, s, l) = observe(&c, &sb);
+        let (v, s, l, l2, l1) = observe(&c, &sb);
         println!("fontinfo.plist given to Font::load:\n{}", plist_text(&c));
+        if v1_applicable(&c) {
+            println!("lib.plist given to Font::load (format 1):\n{}", lib_text_v1(&c));
+        }
         println!("in-memory FontInfo exists: {}", build(&c).is_some());
-        println!("FontInfo::validate -> {:?}", v);
-        println!("Font::save         -> {:?}", s);
-        println!("Font::load         -> {:?}", l);
-        println!("GALLINA mkcase {} {} {} {}", g_raw(&c), g_obs(&v), g_obs(&s), g_obs(&l));
+        println!("FontInfo::validate       -> {:?}", v);
+        println!("Font::save               -> {:?}", s);
+        println!("Font::load (format 3)    -> {:?}", l);
+        println!("Font::load (format 2)    -> {:?}", l2);
+        println!("Font::load (format 1 lib)-> {:?}", l1);
+        println!(
+            "GALLINA mkcase {} {} {} {} {} {}",
+            g_raw(&c), g_obs(&v), g_obs(&s), g_obs(&l), g_obs(&l2), g_obs(&l1)
+        );
         return;
     }
     let cases = generate(a);
@@ -1425,8 +1576,12 @@ pub fn main(a: &Args) {
     for (k, part) in cases.chunks(shard).enumerate() {
         let mut s = String::new();
         for (i, (_, c)) in part.iter().enumerate() {
-            let (v, sv, l) = &obs[k * shard + i];
-            let _ = writeln!(s, "mkcase {} {} {} {}", g_raw(c), g_obs(v), g_obs(sv), g_obs(l));
+            let (v, sv, l, l2, l1) = &obs[k * shard + i];
+            let _ = writeln!(
+                s,
+                "mkcase {} {} {} {} {} {}",
+                g_raw(c), g_obs(v), g_obs(sv), g_obs(l), g_obs(l2), g_obs(l1)
+            );
         }
         write_file(&a.out.join(format!("cases_{}.txt", k)), &s);
         nshards += 1;
@@ -1439,7 +1594,7 @@ pub fn main(a: &Args) {
         Obs::Other(c, m) => format!("other {} {}", c, m),
     };
     for (k, (label, c)) in cases.iter().enumerate() {
-        let (v, s, l) = &obs[k];
+        let (v, s, l, l2, l1) = &obs[k];
         let key = format!(
             "validate={} load={}",
             match v {
@@ -1456,15 +1611,20 @@ pub fn main(a: &Args) {
             jl,
             "{}",
             serde_json::json!({"index": k, "label": label, "case": case_json(c),
-                "validate": short(v), "save": short(s), "load": short(l)})
+                "validate": short(v), "save": short(s), "load": short(l),
+                "load_format2": short(l2), "load_format1_lib": short(l1)})
         );
     }
     write_file(&a.out.join("cases.jsonl"), &jl);
     let nrand = cases.iter().filter(|(l, _)| l.starts_with("random #")).count();
+    let n_mem = obs.iter().filter(|o| o.0 != Obs::NA).count();
+    let n_v2 = obs.iter().filter(|o| o.3 != Obs::NA).count();
+    let n_v1 = obs.iter().filter(|o| o.4 != Obs::NA).count();
     write_file(
         &a.out.join("summary.json"),
         &serde_json::json!({"cases": cases.len(), "shards": nshards, "shard_size": shard,
             "boundary_exhaustive_cases": cases.len() - nrand, "random_cases": nrand,
+            "with_in_memory_value": n_mem, "through_format2_loader": n_v2, "through_format1_lib_loader": n_v1,
             "outcome_histogram": hist})
         .to_string(),
     );
